@@ -34,7 +34,7 @@ class TMolecules(TSpec):
         n = max(n, self.min_n)
         cols = ""
         if self.features:
-            cols = ", features={" + ", ".join(f"{c!r}: np.arange({n}) * {i + 2}.5" for i, c in enumerate(self.features)) + "}"
+            cols = ", features={" + ", ".join(f"{c!r}: ((np.arange({n}) * 3 + 2) % 5) * {i + 2}.5" for i, c in enumerate(self.features)) + "}"
         rot = f"_Rotation.random({n}, random_state=7)"
         if model.get(f"{name}_rotations") == "identity":
             rot = f"_Rotation.identity({n})"
